@@ -347,7 +347,11 @@ def run_function(case):
     key, form = case[0], case[1]
     if form == "single":
         deg, seventh = case[2], case[3]
-        chord = (H.sevenths(key) if seventh else H.triads(key))[deg]
+        root_position = (H.sevenths(key) if seventh else H.triads(key))[deg]
+        rot = case[4] if len(case) > 4 else 0                # the same chord in its rot-th inversion
+        chord = list(root_position[rot:]) + list(root_position[:rot])
+        if rot:
+            S.count("function_of_inverted_chords")
         ok, long_ = call("progressions.determine(%r, %r)" % (chord, key), mprog.determine, list(chord), key)
         S.trans(1)
         if ok:
@@ -370,7 +374,7 @@ def run_function(case):
             ok, back = call("progressions.to_chords(%r, %r)" % (h, key), mprog.to_chords, h, key)
             S.trans(1)
             if ok:
-                expect_chords("progressions.to_chords(%r, %r)  [numeral returned for %r]" % (h, key, chord), back, [chord])
+                expect_chords("progressions.to_chords(%r, %r)  [numeral returned for %r]" % (h, key, chord), back, [root_position])
     elif form == "list":
         seventh = case[2]
         rows = H.sevenths(key) if seventh else H.triads(key)
@@ -416,6 +420,8 @@ def gen_function(key):
     for deg in range(7):
         for seventh in (0, 1):
             yield [key, "single", deg, seventh]
+            for rot in range(1, 4 if seventh else 3):
+                yield [key, "single", deg, seventh, rot]
             for lower in (0, 1):
                 yield [key, "numeral", deg, seventh, lower]
     for seventh in (0, 1):
@@ -717,6 +723,17 @@ def run_substitute(case):
         for key in _SUBST["keys"]:
             if denoted_in(r, key, site) is None:
                 return
+    if depth == 0 and suffix in ("m", "m7", "M", "M7"):
+        # the general function applies the documented relative major / minor rule to a chord whose quality is spelled out:
+        # what the rule itself answers for this chord is among the general answers
+        rule = "substitute_major_for_minor" if suffix[0] == "M" else "substitute_minor_for_major"
+        ok, own = call("progressions.%s(%r, %d)" % (rule, before, index), getattr(mprog, rule), list(before), index)
+        S.trans(1)
+        if ok and isinstance(own, list):
+            if not own or not set(own) <= set(res):
+                S.problem(site + " vs progressions.%s" % rule, "a superset of %r" % (sorted(set(own)),), sorted(set(res)),
+                          tags={"how": "rule not applied", "depth": depth})
+            S.count("substitute_vs_rule_checked")
     if depth > 0:
         ok, res0 = call(site, mprog.substitute, list(before), index, 0)
         S.trans(1)
